@@ -269,6 +269,75 @@ theorem VT_ref {v : Val} {e : Ty} (h : VT S P Ψ v (.ref e)) : ∃ l, v = .ref l
   | enumV h1 _ _ => simp [isEnumTy] at h1
   | structV h1 _ _ => simp [isStructTy] at h1
 
+/-! ### trait objects -/
+
+theorem scalar_concrete : (scalarTys.all concreteTy) = true := by decide +kernel
+
+theorem keyable_concrete {t : Ty} (h : keyable S t = true) : concreteTy t = true := by
+  rcases keyable_cases h with hs | ⟨n, d, rfl, _, _⟩ | ⟨n, d, rfl, _, _⟩
+  · have := scalar_concrete
+    simp only [List.all_eq_true] at this
+    exact this t hs
+  · rfl
+  · rfl
+
+theorem VT_dyn {v : Val} {tr : String} (h : VT S P Ψ v (.dyn tr)) :
+    ∃ key v0 τ0, v = .dyn tr key v0 ∧ keyable S τ0 = true ∧ VT S P Ψ v0 τ0 ∧ tyKey τ0 = key := by
+  cases h with
+  | dyn h1 h2 h3 => exact ⟨_, _, _, rfl, h1, h2, h3⟩
+  | enumV h1 _ _ => simp [isEnumTy] at h1
+  | structV h1 _ _ => simp [isStructTy] at h1
+
+mutual
+theorem replaceSelf_noSelf (self : Ty) : ∀ t : Ty, noSelf t = true → replaceSelf self t = t
+  | .unit, _ | .bool, _ | .int _ _, _ | .float _, _ | .string, _ | .enum _, _ | .dyn _, _ | .tvar _, _ | .param _, _ => by
+    simp [replaceSelf]
+  | .struct n, h => by
+    simp only [noSelf, Bool.not_eq_true', beq_eq_false_iff_ne, ne_eq] at h
+    simp [replaceSelf, h]
+  | .tuple ts, h => by simp only [noSelf] at h; simp [replaceSelf, replaceSelfs_noSelf self ts h]
+  | .app t args, h => by
+    simp only [noSelf, Bool.and_eq_true] at h
+    simp [replaceSelf, replaceSelf_noSelf self t h.1, replaceSelfs_noSelf self args h.2]
+  | .array _ e, h => by simp only [noSelf] at h; simp [replaceSelf, replaceSelf_noSelf self e h]
+  | .vec e, h => by simp only [noSelf] at h; simp [replaceSelf, replaceSelf_noSelf self e h]
+  | .ref e, h => by simp only [noSelf] at h; simp [replaceSelf, replaceSelf_noSelf self e h]
+  | .func ps r, h => by
+    simp only [noSelf, Bool.and_eq_true] at h
+    simp [replaceSelf, replaceSelfs_noSelf self ps h.1, replaceSelf_noSelf self r h.2]
+theorem replaceSelfs_noSelf (self : Ty) : ∀ ts : List Ty, noSelfs ts = true → replaceSelfs self ts = ts
+  | [], _ => by simp [replaceSelfs]
+  | t :: ts, h => by
+    simp only [noSelfs, Bool.and_eq_true] at h
+    simp [replaceSelfs, replaceSelf_noSelf self t h.1, replaceSelfs_noSelf self ts h.2]
+end
+
+/-- an object-safe method: its signature at any `Self` is `(Self, ps) -> r` with the same `ps`, `r` -/
+theorem methodTy_objSafe {tr m : String} (h : objSafe S tr m = true) :
+    ∃ ps r, ∀ self, methodTy S tr m self = some (.func (self :: ps) r) := by
+  unfold objSafe at h
+  cases hd : S.traits.find? (·.name == tr) with
+  | none => simp [hd] at h
+  | some d =>
+    simp only [hd] at h
+    cases hl : lookupTy d.methods m with
+    | none => simp [hl] at h
+    | some sig =>
+      simp only [hl] at h
+      split at h
+      · rename_i s ps r heq
+        injection heq with heq; subst heq
+        simp only [Bool.and_eq_true] at h
+        obtain ⟨⟨hs, hps⟩, hr⟩ := h
+        refine ⟨ps, r, fun self => ?_⟩
+        unfold methodTy
+        simp only [hd, hl]
+        have hself : replaceSelf self s = self := by
+          cases s <;> simp [isSelf] at hs
+          subst hs; simp [replaceSelf]
+        simp [replaceSelf, replaceSelfs, hself, replaceSelfs_noSelf self ps hps, replaceSelf_noSelf self r hr]
+      · cases h
+
 /-- the reference builtins: allocation extends the store typing, read and write keep it -/
 theorem ref_sound {f : String} {argTys : List Ty} {ty : Ty} {θ : Subst} {args : List Val} {w w' : World} {v : Val}
     (hp : refOk f argTys ty = true) (hw : WT S P Ψ w) (ha : VTs S P Ψ args (substTys θ argTys))
@@ -377,6 +446,7 @@ theorem key_determines {v : Val} {τθ τs : Ty} (hn : namesOk S = true) (hv : V
   | array _ _ => exact (key_noQ_aux hn hk heq).elim
   | vec _ => exact (key_noQ_aux hn hk heq).elim
   | ref _ => exact (key_noQ_aux hn hk heq).elim
+  | dyn _ _ _ => exact (key_noQ_aux hn hk heq).elim
   | closure _ _ _ => exact (key_noQ_aux hn hk heq).elim
   | fn _ _ => exact (key_noQ_aux hn hk heq).elim
   | @enumV n idx args _ fts h1 h2 _ =>
